@@ -51,15 +51,16 @@ copy_vs(int32 infile_id, int32 outfile_id, int32 tag, /* tag of input VS */
     uint8 *buf = NULL;
     int    ret = 0;
 
-    if (NULL == (vdata_name = calloc(1, VSNAMELENMAX))) {
+    /* VSgetname / VSgetclass store up to VSNAMELENMAX characters and the terminating NUL */
+    if (NULL == (vdata_name = calloc(1, VSNAMELENMAX + 1))) {
         ret = -1;
         goto out;
     }
-    if (NULL == (vdata_class = calloc(1, VSNAMELENMAX))) {
+    if (NULL == (vdata_class = calloc(1, VSNAMELENMAX + 1))) {
         ret = -1;
         goto out;
     }
-    if (NULL == (fieldname_list = calloc(1, VSFIELDMAX * FIELDNAMELENMAX))) {
+    if (NULL == (fieldname_list = calloc(1, VSFIELDMAX * (FIELDNAMELENMAX + 1)))) {
         ret = -1;
         goto out;
     }
